@@ -9,6 +9,7 @@ import builtins as _bi
 import z3
 from fractions import Fraction
 from .core import SB, SV, cur, frac, concretize_int, ite, PathAbort
+from . import ev as _ev
 from .ev import EV, ev_min, ev_max, ev_ite, _b, And, Or, Not, is_symbolic, R
 
 inf = math.inf
@@ -505,6 +506,8 @@ _sqrt_n = [0]
 
 def _sqrt_sym(v):
     v = EV.of(v)
+    if _ev.TRACK_SUB[0] and v.sub is not None:
+        _ev.SUB_EVENTS.append((v, v.sub))
     sv = z3.simplify(v.v)
     if z3.is_rational_value(sv) and isinstance(v.inf, bool) and isinstance(v.nan, bool):
         fr = Fraction(sv.numerator_as_long(), sv.denominator_as_long())
